@@ -131,15 +131,16 @@ def run(ctx):
     for q in ('Container.dilute', 'Container.fill_to'):
         sc = targets.scan(ctx, q)
         uscan.report_sinks(ctx, lambda cat: 'C11.R5' if cat in UNIT_CATS else None, sc)
-    sc = targets.scan(ctx, 'Unit.calculate_concentration_ratio')
-    uscan.report_sinks(ctx, lambda cat: 'C11.R5' if cat in UNIT_CATS else None, sc)
     fi = model.func('Unit.calculate_concentration_ratio')
     cells = {}
-    for label, kind, v, line, it in sc.outcomes:
-        pc = it.memo.get(('pc', 'concentration'))
-        if pc is None:
-            continue
-        cells.setdefault(pc, []).append((label, kind, v, it))
+    for tq in ('Unit.calculate_concentration_ratio', 'Unit.calculate_concentration_ratio#U'):
+        sc = targets.scan(ctx, tq)
+        uscan.report_sinks(ctx, lambda cat: 'C11.R5' if cat in UNIT_CATS else None, sc)
+        for label, kind, v, line, it in sc.outcomes:
+            pc = it.memo.get(('pc', 'concentration'))
+            if pc is None:
+                continue
+            cells.setdefault(pc, []).append((label, kind, v, it))
     for (num, den), outs in sorted(cells.items()):
         bad = []
         rets = 0
